@@ -310,7 +310,9 @@ class Ctx:
 
     # ---------------------------------------------------------------- scenario helpers
     def bus(self, name, cls=None, **kw):
-        b = (cls or _HBUS)(name=name, **kw)
+        # name_ = the name requested from bubus (several buses may ask for the same one); `name` stays the harness label
+        req = kw.pop('name_', name)
+        b = (cls or _HBUS)(name=req, **kw)
         b._vfw_name = name
         if cls is None:
             b._vctx = self
